@@ -11,8 +11,9 @@ use vkit::out::Report;
 use vkit::util::Args;
 
 /// "valided": valid for the host, under a second, tiny Ed25519 root (its DER encoding is shorter than 256 bytes)
-pub const LEAVES: [&str; 7] = ["valid", "wronghost", "expired", "selfsigned", "unknownca", "valided", "justexpired"];
-pub const ROOTS: [&str; 8] = ["none", "pem", "der", "unrelated", "edpem", "edder", "pemcrlf", "pemtext"];
+/// "validfull": valid for the host, under a third root whose PEM form consists of full 64-character lines only
+pub const LEAVES: [&str; 8] = ["valid", "wronghost", "expired", "selfsigned", "unknownca", "valided", "justexpired", "validfull"];
+pub const ROOTS: [&str; 9] = ["none", "pem", "der", "unrelated", "edpem", "edder", "pemcrlf", "pemtext", "fullpem"];
 pub const IGNORE: [Option<bool>; 3] = [None, Some(false), Some(true)];
 
 fn request(id: u32) -> Model {
@@ -43,6 +44,7 @@ pub fn run(args: &Args, tier: &str, seed: u64, backend: &str) -> Report {
             "unrelated" => Some(read("ca2.pem")),
             "edpem" => Some(read("ca4.pem")),
             "edder" => Some(read("ca4.der")),
+            "fullpem" => Some(read("ca5.pem")),
             _ => None,
         }
     };
@@ -102,7 +104,7 @@ pub fn run(args: &Args, tier: &str, seed: u64, backend: &str) -> Report {
                                 if reduced && !(matches!(leaf, "valid" | "wronghost" | "expired") && matches!(root, "none" | "pem" | "der") && ignore != Some(false)) {
                                     continue;
                                 }
-                                let should_accept = ignore == Some(true) || ((root == "pem" || root == "der" || root == "pemcrlf" || root == "pemtext") && leaf == "valid") || ((root == "edpem" || root == "edder") && leaf == "valided");
+                                let should_accept = ignore == Some(true) || ((root == "pem" || root == "der" || root == "pemcrlf" || root == "pemtext") && leaf == "valid") || ((root == "edpem" || root == "edder") && leaf == "valided") || (root == "fullpem" && leaf == "validfull");
                                 let resp = response.clone();
                                 srv.on(&id, Arc::new(move |_r: &Req| Plan::ok(resp.clone())));
                                 let events_before = srv.log.lock().unwrap().len();
@@ -179,9 +181,9 @@ pub fn run(args: &Args, tier: &str, seed: u64, backend: &str) -> Report {
         });
     }
     let mut rep = rep_m.into_inner().unwrap();
-    // ---- one client object used for two sends while the server's certificate changes in between (same port, the server keeps
-    // its session cache): the second send meets an expired certificate and must be refused - a client that keeps TLS state
-    // between sends (a cached configuration resuming the earlier session) would not look at the certificate again
+    // ---- one client object used for two sends while the server is restarted with another certificate in between (same port):
+    // the second send needs a new connection and a full handshake, meets an expired certificate and must be refused - a client
+    // that remembers its own earlier verdict (a cached "this peer is fine") would not look at the certificate again
     if only.is_none() && !reduced {
         for kind in [Kind::Blocking, Kind::Async] {
             for (second_leaf, second_must_accept) in [("expired", false), ("wronghost", false), ("valid", true)] {
@@ -220,11 +222,18 @@ pub fn run(args: &Args, tier: &str, seed: u64, backend: &str) -> Report {
                     *req.payload_mut() = ipp::payload::IppPayload::new(std::io::Cursor::new(b"SECRET-DOCUMENT".to_vec()));
                     req
                 };
+                // "the server is restarted with another certificate": a new TLS configuration for the connections to come, so the
+                // sessions handed out under the first certificate cannot be resumed (resuming one - like riding a kept-alive
+                // connection - is a continuation of the exchange that was authenticated, not a new verdict on a certificate)
+                let restart_with = |srv: &Server, key: &Arc<rustls::sign::CertifiedKey>| {
+                    let sw = Arc::new(crate::server::SwitchableCert(Mutex::new(key.clone())));
+                    srv.replace_tls(crate::server::tls_config_switchable(sw).expect("tls config"));
+                };
                 let (r1, r2, seen_after) = match kind {
                     Kind::Blocking => {
                         let c = blocking_client(&uri, &ccfg);
                         let r1 = send_blocking(&c, mk(1));
-                        *switch.0.lock().unwrap() = second.clone();
+                        restart_with(&srv, &second);
                         let before = srv.requests_for("r1").len();
                         let r2 = send_blocking(&c, mk(2));
                         std::thread::sleep(std::time::Duration::from_millis(50));
@@ -233,7 +242,7 @@ pub fn run(args: &Args, tier: &str, seed: u64, backend: &str) -> Report {
                     Kind::Async => {
                         let c = async_client(&uri, &ccfg);
                         let r1 = send_async(&rt, &c, mk(1));
-                        *switch.0.lock().unwrap() = second.clone();
+                        restart_with(&srv, &second);
                         let before = srv.requests_for("r1").len();
                         let r2 = send_async(&rt, &c, mk(2));
                         std::thread::sleep(std::time::Duration::from_millis(50));
@@ -268,9 +277,9 @@ pub fn run(args: &Args, tier: &str, seed: u64, backend: &str) -> Report {
         }
     }
     rep.extra.insert("tls_backend_of_this_build".into(), J::Str(backend.to_string()));
-    rep.rule = format!("Complete matrix for the {backend} build: {{blocking, async}} x ignore_tls_errors {{unset, false, true}} x extra root {{none, correct CA as PEM, as DER, unrelated CA, second (tiny Ed25519, DER < 256 bytes and ending in a 0x0a octet) CA as PEM, as DER, correct CA as PEM with CRLF line endings and a leading comment line, correct CA as PEM behind its `openssl x509 -text` dump}} x server certificate {{valid for localhost, wrong host name, expired, self-signed, signed by an unknown CA, valid under the second CA, expired less than a minute before the run}} = 336 cells per TLS backend build, the target written ipps:// or https:// (quick: one spelling per cell chosen by cell hash and seed; thorough: both, x {{1.2+1.3, 1.2-only, 1.3-only}} peers), against a loopback rustls peer with freshly generated CAs. Oracle: accept <=> ignore == true or the supplied root (PEM or DER) is the one the valid leaf chains to; in every rejected cell the peer application must have received zero decrypted bytes. Plus client-reuse sequences: one client object sends to a valid server, the peer closes the connection after its answer, the server's certificate is then exchanged (same port, session cache kept) for an expired / wrong-host / valid one, and the same client sends again - refused, refused, accepted. Four builds are run and merged by the driver: both clients on native-tls, both on rustls (full matrix each), and the two mixed builds - blocking native-tls + async rustls, blocking rustls + async native-tls - with the full matrix in thorough and a 36-cell sub-matrix ({{valid, wrong host, expired}} x {{no root, PEM, DER}} x {{unset, true}} x 2 clients) in quick.");
+    rep.rule = format!("Complete matrix for the {backend} build: {{blocking, async}} x ignore_tls_errors {{unset, false, true}} x extra root {{none, correct CA as PEM, as DER, unrelated CA, second (tiny Ed25519, DER < 256 bytes and ending in a 0x0a octet) CA as PEM, as DER, correct CA as PEM with CRLF line endings and a leading comment line, correct CA as PEM behind its `openssl x509 -text` dump, third CA as PEM whose base64 body consists of full 64-character lines only (DER length 48k-2..48k)}} x server certificate {{valid for localhost, wrong host name, expired, self-signed, signed by an unknown CA, valid under the second CA, expired less than a minute before the run, valid under the third CA}} = 432 cells per TLS backend build, the target written ipps:// or https:// (quick: one spelling per cell chosen by cell hash and seed; thorough: both, x {{1.2+1.3, 1.2-only, 1.3-only}} peers), against a loopback rustls peer with freshly generated CAs. Oracle: accept <=> ignore == true or the supplied root (PEM or DER) is the one the valid leaf chains to; in every rejected cell the peer application must have received zero decrypted bytes. Plus client-reuse sequences: one client object sends to a valid server, the peer closes the connection after its answer, the server is then restarted with another certificate (same port, new TLS configuration: earlier sessions cannot be resumed) for an expired / wrong-host / valid one, and the same client sends again - refused, refused, accepted. Four builds are run and merged by the driver: both clients on native-tls, both on rustls (full matrix each), and the two mixed builds - blocking native-tls + async rustls, blocking rustls + async native-tls - with the full matrix in thorough and a 36-cell sub-matrix ({{valid, wrong host, expired}} x {{no root, PEM, DER}} x {{unset, true}} x 2 clients) in quick.");
     if only.is_none() {
-        let want = if reduced { 36 } else { 336 * version_sets.len() * if tier == "thorough" { 2 } else { 1 } };
+        let want = if reduced { 36 } else { 432 * version_sets.len() * if tier == "thorough" { 2 } else { 1 } };
         rep.require(rep.evaluations as usize >= want, "all cells of the matrix executed");
     }
     rep.assumptions.push("trust decisions are those of OpenSSL / rustls as shipped in this image; system roots do not vouch for the freshly generated CAs".into());
